@@ -491,6 +491,14 @@ func (m *ModuleInstance) resolveImports(ctx context.Context, module *Module) (er
 					err = errorMaxSizeMismatch(i, expected.Max, importedMemory.Max)
 					return
 				}
+
+				// The importer is compiled for the declared sharedness (e.g. whether the
+				// buffer can move on grow), so it must match the actual memory.
+				if expected.IsShared != importedMemory.Shared {
+					err = errorInvalidImport(i, fmt.Errorf("shared mismatch: %t != %t",
+						expected.IsShared, importedMemory.Shared))
+					return
+				}
 				m.MemoryInstance = importedMemory
 				m.Engine.ResolveImportedMemory(importedModule.Engine)
 			case ExternTypeGlobal:
